@@ -16,6 +16,10 @@ Bounded-exhaustive enumeration (engine enumx, DESIGN "### C12") on the real `Mol
   asm    iterated joins through `_ml_assemble`: 2- and 3-attachment cores x substituent tuples x every order of
          core_aps (ascending = what `molli combine` computes by default; others = `-a` labels in another order)
 
+  rejoin the SAME fragment objects joined, edited in place (14 edits: coordinates, atom/bond attributes, charge/mult,
+         atom count), optionally joined at another attachment point in between, and joined again: the second product is
+         judged against the inputs as they are NOW (a join must not remember an earlier one)
+
 Reference model (this file + c11_num.py, float64 numpy): label-keyed atom/bond tables of the inputs, rigid
 invariants (distance matrix, signed volumes) of each fragment *together with the point where its attachment
 point must end up*, charge/mult arithmetic, deep snapshots of the inputs.
@@ -870,8 +874,265 @@ def part_asm(ctx, spec):
 
 
 # =====================================================================================================
-EXEC = {"join": exec_join, "asm": exec_asm}
-PARTS = {"join": part_join, "qm": part_qm, "par": part_par, "asm": part_asm}
+# rejoin : the SAME fragment objects are joined, edited in place, and joined again
+#   join(X, Y) -> [join at another attachment point of a two-AP fragment] -> one in-place edit of X or
+#   of Y -> join(X, Y) at the same attachment points.  The second product must satisfy the whole oracle
+#   against the inputs AS THEY ARE NOW (a join may not remember anything about an earlier one).
+# =====================================================================================================
+REJOIN_EDITS = (
+    "move-atom[other]",
+    "move-atom[anchor]",
+    "move-atom[attachment-point]",
+    "coords=[non-rigid]",
+    "rotate_dihedral",
+    "scale",
+    "translate",
+    "transform",
+    "element",
+    "bond-type",
+    "charge-mult",
+    "label",
+    "attrib",
+    "add_atom",
+)
+EDIT_CLASS = {
+    "move-atom[other]": "coordinates",
+    "move-atom[anchor]": "coordinates",
+    "move-atom[attachment-point]": "coordinates",
+    "coords=[non-rigid]": "coordinates",
+    "rotate_dihedral": "coordinates",
+    "scale": "coordinates",
+    "translate": "coordinates",
+    "transform": "coordinates",
+    "element": "atom-or-bond-attributes",
+    "bond-type": "atom-or-bond-attributes",
+    "label": "atom-or-bond-attributes",
+    "attrib": "atom-or-bond-attributes",
+    "charge-mult": "charge-mult",
+    "add_atom": "atom-count",
+}
+
+
+def _adjacency(m):
+    idx = {id(a): i for i, a in enumerate(m.atoms)}
+    adj = [[] for _ in m.atoms]
+    for b in m.bonds:
+        i, j = idx[id(b.a1)], idx[id(b.a2)]
+        adj[i].append(j)
+        adj[j].append(i)
+    return adj
+
+
+def _acyclic(adj, i, j):
+    seen, stack = {i}, [i]
+    while stack:
+        x = stack.pop()
+        for y in adj[x]:
+            if x == i and y == j:
+                continue
+            if y == j:
+                return False
+            if y not in seen:
+                seen.add(y)
+                stack.append(y)
+    return True
+
+
+def _dihedral_quad(m):
+    adj = _adjacency(m)
+    for b in range(len(adj)):
+        for c in adj[b]:
+            if len(adj[b]) > 1 and len(adj[c]) > 1 and _acyclic(adj, b, c):
+                a = [x for x in adj[b] if x != c][0]
+                d = [x for x in adj[c] if x != b][0]
+                return (a, b, c, d)
+    return None
+
+
+def apply_edit(T, edit, i_ap, k=0):
+    """one in-place edit of fragment T through its public API; False when the edit is not defined for T"""
+    adj = _adjacency(T)
+    anchor = adj[i_ap][0]
+    aps = {i for i, a in enumerate(T.atoms) if a.atype == AtomType.AttachmentPoint}
+    others = [i for i in range(T.n_atoms) if i not in aps and i != anchor]
+    d = np.array([0.31, -0.22, 0.27]) * (1 + 0.5 * (k % 2))
+    if edit == "move-atom[other]":
+        if not others:
+            return False
+        T.coords[others[k % len(others)]] += d
+    elif edit == "move-atom[anchor]":
+        T.coords[anchor] += d
+    elif edit == "move-atom[attachment-point]":
+        T.coords[i_ap] += d
+    elif edit == "coords=[non-rigid]":
+        c = np.array(T.coords, dtype=float)
+        T.coords = c * np.array([1.0, 1.35, 0.8]) + np.array([0.2, 0.0, -0.1])
+    elif edit == "rotate_dihedral":
+        q = _dihedral_quad(T)
+        if q is None:
+            return False
+        T.rotate_dihedral(q, float(T.dihedral(*q)) + 1.1)
+    elif edit == "scale":
+        T.scale(1.3)
+    elif edit == "translate":
+        T.translate(np.array([2.0, -1.0, 0.5]))
+    elif edit == "transform":
+        T.transform(N.rot_axis_angle([0.3, -0.5, 0.8], 1.9))
+    elif edit == "element":
+        T.atoms[anchor if k % 2 else (others[0] if others else anchor)].element = "P"
+    elif edit == "bond-type":
+        bs = [b for b in T.bonds if b.a1.atype != AtomType.AttachmentPoint and b.a2.atype != AtomType.AttachmentPoint]
+        if not bs:
+            return False
+        bs[k % len(bs)].btype = BondType.Triple
+        bs[k % len(bs)].f_order = 3.0
+    elif edit == "charge-mult":
+        T.charge = T.charge + 2
+        T.mult = T.mult + 1
+    elif edit == "label":
+        i = others[0] if others else anchor
+        T.atoms[i].label = T.atoms[i].label + "x"
+    elif edit == "attrib":
+        i = others[0] if others else anchor
+        T.atoms[i].attrib = {"edited": k}
+        T.atoms[i].formal_charge = -1
+    elif edit == "add_atom":
+        a = Atom("H", label=T.atoms[anchor].label + "H")
+        c = [float(x) for x in (np.asarray(T.coords[anchor], dtype=float) + np.array([0.4, 0.7, -0.6]))]
+        if isinstance(T, ml.Molecule):
+            T.add_atom(a, c, charge=0.0)
+        else:
+            T.add_atom(a, c)
+        T.connect(anchor, a)
+    else:
+        raise KeyError(edit)
+    return True
+
+
+def exec_rejoin(ctx, case):
+    cls, A, B, iA, iB = make_pair(ctx, case)
+    swap = bool(case.get("swap"))
+    X, Y, iX, iY = (B, A, iB, iA) if swap else (A, B, iA, iB)
+    edit = case["edit"]
+    on_first = (case["edit_on"] == "B") == swap  # is the edited object the first argument of join?
+    T, iT = (A, iA) if case["edit_on"] == "A" else (B, iB)
+    role = "first" if on_first else "second"
+    pre = f"rejoin[in-place-{EDIT_CLASS[edit]}-edit-of-{role}-fragment-between-two-joins]"
+    what = f"{cls.__name__}.join({'B, A' if swap else 'A, B'}) twice with the same objects (A={case['A'][0]}, B={case['B'][0]}), {edit} of {case['edit_on']} in between"
+    found = []
+
+    def emit(sym, text):
+        if sym not in [s_ for s_, _ in found]:
+            found.append((sym, text))
+
+    def joined(stage, i1, i2):
+        """one join judged against the inputs as they are right now; returns the product (or None)"""
+        p1, p2 = Part(X, [i1]), Part(Y, [i2])
+        s1, s2 = snapshot(X), snapshot(Y)
+        wc, wm = _wants(case, X.charge, Y.charge, X.mult, Y.mult)
+        res, err, _ = _call_join(cls, X, Y, i1, i2, case, N.answer_sequence(N.RNG_MENU[stage % 6]), stage)
+        ctx.count(transitions=1)
+        if err:
+            emit(f"{stage_name[stage]}:{err}", f"{stage_name[stage]} failed: {err}")
+            return None
+        dd = snap_diff(s1, snapshot(X)) + snap_diff(s2, snapshot(Y))
+        if dd:
+            emit(f"{stage_name[stage]}:input-modified:" + "+".join(sorted(set(dd))), f"{stage_name[stage]} changed its inputs: {sorted(set(dd))}")
+        n0 = len(found)
+        judge_product(ctx, lambda sym, text: emit(f"{stage_name[stage]}:{sym}", text), res, p1, [(p2, p2.labels[i2], p1.labels[i1])], cls, case.get("dist"), wc, wm, {})
+        return res if len(found) == n0 else None
+
+    stage_name = {0: "first-join", 1: "interleaved-join", 2: "second-join"}
+    ctx.count(evaluations=1, states=1, traces=1)
+    ok = joined(0, iX, iY) is not None
+    if ok and case.get("interleave"):
+        # a join at the OTHER attachment point of the two-AP fragment, with the same partner
+        which = case["interleave"]
+        F = A if which == "A" else B
+        used = iA if which == "A" else iB
+        other = [i for i, a in enumerate(F.atoms) if a.atype == AtomType.AttachmentPoint and i != used]
+        if other:
+            j1, j2 = (iX, iY)
+            if (F is X):
+                j1 = other[0]
+            else:
+                j2 = other[0]
+            ok = joined(1, j1, j2) is not None
+    if ok:
+        try:
+            applied = apply_edit(T, edit, iT, case.get("k", 0))
+            ctx.count(transitions=1)
+        except Exception as e:
+            ctx.add_note("rejoin_edit_raised_" + _exc(e))
+            applied = False
+        if not applied:
+            ctx.add_note("rejoin_cases_edit_not_defined")
+            return
+        joined(2, iX, iY)
+    for sym, text in found:
+        stage, _, rest = sym.partition(":")
+        sig = f"{pre}:{rest}" if stage == "second-join" else f"rejoin[{stage}]:{rest}"
+        ctx.violation(sig, f"{what}: {text}", case)
+    ctx.outcome(("rejoin", edit, role, swap, bool(case.get("interleave")), tuple(sorted(s_ for s_, _ in found))))
+    if not found:
+        ctx.nontrivial(("rejoin", repr(sorted((k_, repr(v_)) for k_, v_ in case.items()))))
+
+
+REJOIN_FRAGS = [("p3", [0], 0, "last"), ("p4", [1], 0, "after"), ("s4", [0], 0, "first"), ("r3", [2], 0, "after"), ("s4", [1, 2], 0, "after"), ("p3", [0, 2], 1, "first")]
+
+
+def rejoin_cases(thorough):
+    out = []
+    combos = [(d, o) for d in DISTS for o in (False, True)]
+    frs = list(REJOIN_FRAGS)
+    if thorough:
+        frs += [("p2", [1], 0, "first"), ("a1", [0], 0, "last"), ("p4", [3], 0, "first"), ("r3", [0, 1], 1, "last")]
+    for ia, fa in enumerate(frs):
+        for ib, fb in enumerate(frs):
+            for ei, edit in enumerate(REJOIN_EDITS):
+                for oi, on in enumerate(("A", "B")):
+                    for swap in (False, True):
+                        k = ia + 2 * ib + ei + oi + int(swap)
+                        dist, opt = combos[k % 6]
+                        case = {
+                            "family": "rejoin",
+                            "A": list(fa),
+                            "B": list(fb),
+                            "poseA": ia % len(N.POSES),
+                            "poseB": (ia + ib + 1) % len(N.POSES),
+                            "edit": edit,
+                            "edit_on": on,
+                            "swap": swap,
+                            "dist": dist,
+                            "opt": opt,
+                            "k": k,
+                            "qA": Q_MENU[k % 3],
+                            "qB": Q_MENU[(k // 3) % 3],
+                            "mA": M_MENU[(k // 2) % 3],
+                            "mB": M_MENU[(k // 5) % 3],
+                            "eoffA": ia % 4,
+                            "eoffB": (ib + 1) % 4,
+                            "by_atom": bool(k % 2),
+                            "cls": "Structure" if k % 5 == 0 and edit != "add_atom" else "Molecule",
+                        }
+                        out.append(case)
+                        for which, f in (("A", fa), ("B", fb)):
+                            if len(f[1]) == 2 and (thorough or (ei + oi + int(swap)) % 2 == 0):
+                                out.append(dict(case, interleave=which))
+    return out
+
+
+def part_rejoin(ctx, spec):
+    lo, hi = spec
+    for i, c in enumerate(rejoin_cases(ctx.thorough)[lo:hi]):
+        exec_rejoin(ctx, c)
+        if lo == 0 and i in (3, 40):
+            ctx.sample(c)
+
+
+# =====================================================================================================
+EXEC = {"join": exec_join, "asm": exec_asm, "rejoin": exec_rejoin}
+PARTS = {"join": part_join, "qm": part_qm, "par": part_par, "asm": part_asm, "rejoin": part_rejoin}
 
 
 def _run_part(ctx, part):
@@ -905,7 +1166,11 @@ def run(ctx):
         "antiparallel attachment vectors (" + par_text + " x {global pose, both anchors at the origin, axis aligned} x optimize_rotation) with EVERY "
         "answer of a 12-entry numpy.random.rand menu (+ answers parallel to v2 when they lie in [0,1)^3); every case is executed at least twice "
         "with different answers and different global generator seeds; iterated joins through scripts/combine._ml_assemble for every order of "
-        "core_aps. The result is 'holds for every lattice point'. A case is non-trivial when all its executions satisfy every oracle "
+        "core_aps; histories on the SAME objects: join -> [join at the other attachment point of a two-attachment fragment] -> one in-place "
+        "edit of the first or of the second fragment out of 14 (move one atom: other / anchor / attachment point, coords= non-rigid, "
+        "rotate_dihedral, scale, translate, transform, element, bond type, charge+mult, label, attrib+formal charge, add_atom) -> join again at "
+        "the same attachment points, for 6 x 6 fragment pairs (10 x 10 thorough), both argument orders join(A,B) / join(B,A), every join "
+        "judged by the full oracle against the inputs as they are at that moment. The result is 'holds for every lattice point'. A case is non-trivial when all its executions satisfy every oracle "
         "(every case moves B by a rigid motion other than the identity)"
     )
     ctx.assumptions += [
@@ -940,6 +1205,10 @@ def run(ctx):
     na = len(asm_cases(thorough))
     for lo, hi in _chunks(na, 16):
         parts.append(("asm", (lo, hi)))
+    nr = len(rejoin_cases(thorough))
+    for lo, hi in _chunks(nr, 16):
+        parts.append(("rejoin", (lo, hi)))
+    ctx.bound["rejoin_cases"] = nr
     ctx.pmap(_run_part, parts)
     ctx.note("parts", len(parts))
 
